@@ -29,7 +29,9 @@ fn main() {
         replay_case = Some(v["case_key"].as_str().expect("case_key").to_string());
     }
     // panics inside cases are caught and classified; keep stderr quiet
-    std::panic::set_hook(Box::new(|_| {}));
+    if std::env::var("FVC_PANIC").is_err() {
+        std::panic::set_hook(Box::new(|_| {}));
+    }
     let Some((sid, f)) = props::lookup(&id) else {
         eprintln!("unknown property {id}");
         std::process::exit(2);
